@@ -15,9 +15,9 @@
   indicator identities behind the three area identities, `unary_union` and `clip`.
 
   C04X additions: the Jordan-type assumption S2 is *proved* from `polyValid` at every point off the
-  rings (`evenOdd_eq_inside_valid`), hence the full statements `booleanOp_pointwise_polygon` (valid
-  Polygon operands) and `unaryUnion_region_valid`; for MultiPolygon operands member disjointness at the
-  point remains a hypothesis (`booleanOp_pointwise_multi_partial`); the
+  rings (`evenOdd_eq_inside_valid`) and member disjointness from `multiPolyValid` (`members_apart`),
+  hence the full statements `booleanOp_pointwise` (valid MultiPolygon operands),
+  `booleanOp_pointwise_polygon` (valid Polygon operands) and `unaryUnion_region_valid`; the
   behaviour of `unary_union` on *every* closed-ring collection, consistently wound or not
   (`unaryUnion_fill_region`, witness `unaryUnion_inconsistent_witness`); the area identities for every
   finitely additive measure on regions and for the results of the four operations
@@ -34,6 +34,7 @@ import GeoProofs.Lemmas.C04XMeasure
 import GeoProofs.Lemmas.C04XLayer
 import GeoProofs.Lemmas.C04XGeneric
 import GeoProofs.Lemmas.C04XMulti
+import GeoProofs.Lemmas.C04XMembers
 import GeoProofs.Props.C18
 import GeoProofs.Props.C05
 
@@ -280,13 +281,11 @@ theorem booleanOp_evenOdd {E : Engine} {far : Pt → List Path → Prop} (hE : E
 /-- [Tp] **pointwise statement of the property**: `inside (A op B) ⇔ op (inside A, inside B)`.
 Extra hypotheses `hSA`, `hSB` = spec adequacy S2 (DESIGN §6.6): for a *valid* (multi)polygon the
 even-odd parity over all its rings is its interior (Jordan curve theorem + holes inside the shell,
-members with disjoint interiors). C04X: `hSA`/`hSB` are now *theorems* for valid Polygon operands
-(`evenOdd_eq_inside_valid`, giving the full statement `booleanOp_pointwise_polygon` below) and for
-valid MultiPolygon operands whose members have no holes (`booleanOp_pointwise_multi_holefree_partial`);
-what this theorem still covers beyond those: MultiPolygon operands with several members of which one
-has a hole, where `hSA`/`hSB` reduce to "at most one member contains `p`"
-(`booleanOp_pointwise_multi_partial`), validated numerically by the membership clause every run.
-Full statement: the same without `hSA`/`hSB` but with `validGeom (.multiPolygon a)`, `… b`. -/
+members with disjoint interiors). C04X: `hSA`/`hSB` are now *theorems* for every valid operand:
+`evenOdd_eq_inside_valid` (one polygon) and `members_apart` (members of a valid MultiPolygon).
+Full statement: the same without `hSA`/`hSB` but with `validGeom (.multiPolygon a)`, `… b` —
+**proved below as `booleanOp_pointwise`** (and `booleanOp_pointwise_polygon` for Polygon operands).
+This form stays useful for operands that are not valid but for which `hSA`/`hSB` can be checked. -/
 theorem booleanOp_pointwise_partial {E : Engine} {far : Pt → List Path → Prop} (hE : EngineSpec E far)
     (a b : List Poly) (op : OpType) (p : Pt)
     (ha : ∀ r ∈ rings a, ringClosed r = true) (hb : ∀ r ∈ rings b, ringClosed r = true)
@@ -446,12 +445,11 @@ private theorem offRings_member {p : Pt} {ps : List Poly} (h : offRings p ps) {q
 /-- [Tp] **pointwise statement of the property for valid MultiPolygon operands**:
 `inside (A op B) ⇔ op (inside A, inside B)` for every engine meeting the specification and every
 point off the rings and far from them.
-Extra hypotheses `hda`, `hdb`: at most one member of each operand contains `p` — the members of a
-valid MultiPolygon have disjoint interiors (`multiPolyValid`: `II = F`); the step from that matrix
-entry to the pointwise statement for members *with holes* is not formalised. This is exactly the
-class excluded: MultiPolygon operands with two or more members. Vacuous for Polygon operands
-(`booleanOp_pointwise_polygon`, a full statement).
-Full statement: `multiPolyValid a`, `multiPolyValid b` instead of `ha`, `hb`, `hda`, `hdb`. -/
+Extra hypotheses `hda`, `hdb`: at most one member of each operand contains `p` (members that are
+valid one by one but may overlap each other elsewhere). For a valid MultiPolygon they are theorems
+(`members_apart`).
+Full statement: `multiPolyValid a`, `multiPolyValid b` instead of `ha`, `hb`, `hda`, `hdb` —
+**proved below as `booleanOp_pointwise`**. -/
 theorem booleanOp_pointwise_multi_partial {E : Engine} {far : Pt → List Path → Prop} (hE : EngineSpec E far)
     (a b : List Poly) (op : OpType) (p : Pt)
     (ha : ∀ q ∈ a, polyValid q = true) (hb : ∀ q ∈ b, polyValid q = true)
@@ -621,10 +619,9 @@ private theorem consistentlyWound_ex : ConsistentlyWound [sqHole, sq] 1 :=
 /-- [Tp] **pointwise statement of the property for valid MultiPolygon operands whose members have no
 holes**: member disjointness is proved from `multiPolyValid` (`II = F`, `dim BB ≤ 0` per pair is then
 the ring-level statement `rings_apart_level`), so nothing topological is assumed.
-Extra hypotheses `hha`, `hhb`: no member has a hole. The class still excluded from the full statement
-is: MultiPolygon operands with at least two members of which one has a hole
-(`booleanOp_pointwise_multi_partial` covers it given member disjointness at the point).
-Full statement: the same without `hha`, `hhb`. -/
+Extra hypotheses `hha`, `hhb`: no member has a hole (then member disjointness is the ring-level
+statement `rings_apart_level`; kept as the short route).
+Full statement: the same without `hha`, `hhb` — **proved below as `booleanOp_pointwise`**. -/
 theorem booleanOp_pointwise_multi_holefree_partial {E : Engine} {far : Pt → List Path → Prop}
     (hE : EngineSpec E far) (a b : List Poly) (op : OpType) (p : Pt)
     (ha : multiPolyValid a = true) (hb : multiPolyValid b = true)
@@ -634,6 +631,28 @@ theorem booleanOp_pointwise_multi_holefree_partial {E : Engine} {far : Pt → Li
     mpInside p (booleanOp E a b op) = opCombine op (mpInside p a) (mpInside p b) :=
   booleanOp_pointwise_multi_partial hE a b op p (multiPolyValid_members ha) (multiPolyValid_members hb)
     hoa hob (members_apart_holefree ha hha p hoa) (members_apart_holefree hb hhb p hob) hfar
+
+/-- [T] **the pointwise statement of the property, at full strength, for valid MultiPolygon operands**:
+for every engine meeting the specification, all four operations, members with holes, either winding,
+repeated vertices, and every point off the rings and far from them,
+`inside (A op B) ⇔ op (inside A, inside B)` with `Difference = A ∧ ¬B`. Nothing topological is assumed:
+S2 for each member is `evenOdd_eq_inside_valid`, and at most one member of a valid MultiPolygon
+contains the point (`members_apart`, Lemmas/C04XMembers.lean: from `II = F`, `dim BB ≤ 0` of
+`multiPolyValid` by a scan to the nearest crossing and the atoms of the DE-9IM specification). -/
+theorem booleanOp_pointwise {E : Engine} {far : Pt → List Path → Prop} (hE : EngineSpec E far)
+    (a b : List Poly) (op : OpType) (p : Pt)
+    (ha : multiPolyValid a = true) (hb : multiPolyValid b = true)
+    (hoa : offRings p a) (hob : offRings p b)
+    (hfar : far p ((rings a).map ringToShapePath ++ (rings b).map ringToShapePath)) :
+    mpInside p (booleanOp E a b op) = opCombine op (mpInside p a) (mpInside p b) :=
+  booleanOp_pointwise_multi_partial hE a b op p (multiPolyValid_members ha) (multiPolyValid_members hb)
+    hoa hob (members_apart ha p hoa) (members_apart hb p hob) hfar
+
+/-- two members, one with a hole, the other inside that hole -/
+def sqInHole : Poly := ⟨[⟨5/2, 5/2⟩, ⟨7/2, 5/2⟩, ⟨7/2, 7/2⟩, ⟨5/2, 7/2⟩, ⟨5/2, 5/2⟩], []⟩
+
+example : multiPolyValid [sqHole, sqInHole] = true ∧ offRings ⟨1, 1⟩ [sqHole, sqInHole] := by
+  decide +kernel
 
 /-- a counter-clockwise square away from `sq` -/
 def sqFar : Poly := ⟨[⟨10, 0⟩, ⟨14, 0⟩, ⟨14, 4⟩, ⟨10, 4⟩, ⟨10, 0⟩], []⟩
@@ -991,6 +1010,11 @@ example : mpInside ⟨1, 1⟩ (booleanOp E1 [sq, sqFar] [sq] .intersection) = tr
   rw [booleanOp_pointwise_multi_holefree_partial E1_spec [sq, sqFar] [sq] .intersection ⟨1, 1⟩
     (by decide +kernel) (by decide +kernel) (by decide +kernel) (by decide +kernel) (by decide +kernel)
     (by decide +kernel) rfl]
+  decide +kernel
+
+example : mpInside ⟨1, 1⟩ (booleanOp E1 [sqHole, sqInHole] [sq] .intersection) = true := by
+  rw [booleanOp_pointwise E1_spec [sqHole, sqInHole] [sq] .intersection ⟨1, 1⟩
+    (by decide +kernel) (by decide +kernel) (by decide +kernel) (by decide +kernel) rfl]
   decide +kernel
 
 example : mpInside ⟨1, 1⟩ (unaryUnion E1 ([sqHole, sq].map (fun m => [m]))) = true := by
